@@ -5,7 +5,8 @@ cd "$(dirname "$(readlink -f "$0")")/.." || exit 2
 ids="${@:-$(ls seeded | sort)}"
 for s in $ids; do
   p=${s%-*}
-  out=$(LINES_MAX=1 tools/mh_try.sh seeded/$s/patch.diff $p 2>&1)
+  pf=seeded/$s/patch.diff; [ -f seeded/$s/patch.rebased.diff ] && pf=seeded/$s/patch.rebased.diff
+  out=$(LINES_MAX=1 tools/mh_try.sh $pf $p 2>&1)
   if echo "$out" | grep -q "APPLY-FAILED"; then echo "$s APPLY-FAILED"; continue; fi
   rc=$(echo "$out" | grep -oE "^== $p rc=[0-9]+" | grep -oE "[0-9]+$")
   case "$rc" in 1) echo "$s CAUGHT" ;; 0) echo "$s MISSED" ;; *) echo "$s MACHINERY rc=$rc" ;; esac
